@@ -50,6 +50,31 @@ def run(ctx):
     nsw = swallow.check(ctx, swallow.cob_functions(db), "swallow", "ignored step error")
     ctx.floor("swallow:sites", nsw, 1, "sites where a step's error is ignored and evaluation continues")
 
+    # the loaded graph is complete: every change that loads becomes a node (with its parent edges).  Rejection happens in
+    # evaluate through prune_by, which also removes the dependents; a change dropped at load time loses the edges from its
+    # dependents (Dag::dependency ignores edges to missing nodes), so they would survive
+    ld = db.one(r"^radicle_cob::change_graph::ChangeGraph::load$")
+    if ld is None:
+        ctx.violated("anchor:load", "ChangeGraph::load not found (anchor missing)")
+    else:
+        gl = cfg.graph(ld)
+        nodes = rules.call_blocks(ld, r"^radicle_dag::Dag::node$")
+        hdr = [hb for hb, w, body, bad in rules.worklists(db, ld)]
+        ok_edges = rules.edges_where(db, ld, lambda f: f[0] == "variant" and f[4] and f[3] == "Ok" and "Storage::load" in nshow(f[1]))
+        ctx.floor("load:sites", min(len(nodes), len(ok_edges), len(hdr)), 1, "load worklist, storage.load Ok edge and Dag::node call")
+        leak = None
+        for (b0, tb, lab) in ok_edges:
+            seen = gl.reach([tb], avoid_blocks=set(nodes))
+            for h in hdr:
+                if h in seen:
+                    leak = gl.path(tb, h, avoid_blocks=set(nodes))
+        ctx.check("pair:load:node", bool(ok_edges) and leak is None,
+                  "every change that loads is added to the graph (no loaded change is left out, whatever its signatures: rejecting it is evaluate's job, "
+                  "which also drops its dependents)", rules.where(ld, nodes[0] if nodes else None), detail={"path": leak}, fn=ld)
+        deps = [f_ for f_, b_ in db.call_sites(r"^radicle_dag::Dag::dependency$") if f_ is ld]
+        pushes = [bb for bb, t, c in db.calls(ld) if (c.get("n") or "").endswith("Vec::push")]
+        ctx.check("req:load:edges", bool(deps) and len(pushes) >= 2, "parent edges of every loaded change are recorded and added to the graph", rules.where(ld), fn=ld)
+
     # evaluate closure
     ev = db.one(r"^radicle_cob::change_graph::ChangeGraph::evaluate$")
     if ev is None:
